@@ -453,9 +453,238 @@ def _judge_factorization(variables, graph, res, exc):
     def truth(m, rv, av, zero_check=False):
         return event_prob(m, ev, rv, av)
 
+    try:
+        _check_structure(expr, ref, ev, case, mech)
+    except Exception as e:  # noqa: BLE001
+        kernel.monitor_error("c19.factorization-structure", e)
     judge_expression("C19", "do_counterfactual_factor_factorization", expr, ref, ev, truth, lambda h, m: m,
                      f"fact|{sorted(map(str, ref.D))}|{sorted(sorted(map(str, e)) for e in ref.B)}", case, mech,
                      modes=("bound-env-literal", "plus-literal-minus-contextual", "bound-literal", "env-literal", "literal"))
+
+
+# ---- (e') the definition-level pieces of the factorisation: ctf-factor form, grouping by district, Eq. 11-15 ----------
+
+
+def _ctf_form_ref(g: RG, name, world):
+    """Definition 3.4: W_{pa_w} - the parents of W as subscripts; a parent the variable was already subscripted with
+    keeps that value (True/False), an added parent carries a contextual value (None here: its mark is not compared)."""
+    w = dict((i, bool(sg)) for i, sg in world)
+    return (name, tuple(sorted((p, w.get(p)) for p in g.pa(name))))
+
+
+def _ctf_key(v, g: RG, orig_world=None):
+    """(name, ((parent, mark-or-None)...)) of a variable y0 produced; marks of subscripts that were not in the original
+    world are blanked so that the comparison does not depend on how a contextual value is written."""
+    ow = dict((i, bool(sg)) for i, sg in (orig_world or ()))
+    return (v.name, tuple(sorted((i.name, (bool(i.star) if i.name in ow else None))
+                                 for i in getattr(v, "interventions", ()) or ())))
+
+
+def _is_ctf_form_ref(g: RG, v) -> bool:
+    """The documented test: every parent of the base is a subscript and the base itself is not (a plain variable must
+    have no parents)."""
+    subs = {i.name for i in getattr(v, "interventions", ()) or ()}
+    return v.name not in subs and set(g.pa(v.name)) <= subs
+
+
+def _judge_factors(label, items, graph, res, exc, var_of):
+    ref = RG.from_nx(graph)
+    try:
+        items = list(items)
+        vars_ = [var_of(x) for x in items]
+    except Exception:  # noqa: BLE001
+        kernel.count("C19:factors:uninspectable-argument")
+        return
+    names = {v.name for v in ref.V}
+    if not ref.is_acyclic() or any(v.name not in names for v in vars_):
+        kernel.count("C19:factors:invalid-input-skipped")
+        return
+    g = _names_rg(ref)
+    in_form = all(_is_ctf_form_ref(g, v) for v in vars_)
+    case = {"graph": gd_of(ref), "variables": [cfvar_json(v) for v in vars_], "op": label}
+    if exc is not None:
+        if in_form or not isinstance(exc, ValueError):
+            kernel.violation("C19", "ctf-factors", f"{label} raised {type(exc).__name__}: {exc} on variables "
+                             f"{sorted(map(str, vars_))} ({'in' if in_form else 'not in'} ctf-factor form); graph "
+                             f"{case['graph']}", case=case)
+        return
+    kernel.count("C19:factors:checked")
+    if not in_form:
+        kernel.violation("C19", "ctf-factors", f"{label} accepted {sorted(map(str, vars_))} although some variable is not in "
+                         f"ctf-factor form; graph {case['graph']}", case=case)
+        return
+    problems = []
+    try:
+        blocks = [set(b) for b in res]
+    except TypeError:
+        kernel.violation("C19", "ctf-factors", f"{label} returned {type(res).__name__}", case=case)
+        return
+    flat = [x for b in blocks for x in b]
+    if set(flat) != set(items) or len(flat) != len(set(items)):
+        problems.append(f"the blocks {[sorted(map(str, b)) for b in blocks]} do not partition the {len(set(items))} given "
+                        f"variables {sorted(map(str, set(items)))}")
+    dist = {n: i for i, d in enumerate(g.districts()) for n in d}
+    ids = []
+    for b in blocks:
+        ds = {dist[var_of(x).name] for x in b}
+        if len(ds) != 1:
+            problems.append(f"block {sorted(map(str, b))} spans {len(ds)} districts")
+        ids.extend(ds)
+    if len(ids) != len(set(ids)):
+        problems.append("two blocks belong to one district")
+    if any(not b for b in blocks):
+        problems.append("an empty block")
+    if problems:
+        kernel.violation("C19", "ctf-factors", f"{label} on {case['graph']}: " + "; ".join(problems[:3]), case=case)
+
+
+def _post_factors(snap, res, *, event, graph):
+    _judge_factors("get_counterfactual_factors", event, graph, res, None, lambda v: v)
+
+
+def _raise_factors(snap, exc, *, event, graph):
+    _judge_factors("get_counterfactual_factors", event, graph, None, exc, lambda v: v)
+
+
+def _post_factors_values(snap, res, *, event, graph):
+    _judge_factors("get_counterfactual_factors_retaining_variable_values", event, graph, res, None, lambda t: t[0])
+
+
+def _raise_factors_values(snap, exc, *, event, graph):
+    _judge_factors("get_counterfactual_factors_retaining_variable_values", event, graph, None, exc, lambda t: t[0])
+
+
+def _post_is_form(snap, res, *, event, graph):
+    ref = RG.from_nx(graph)
+    names = {v.name for v in ref.V}
+    try:
+        vars_ = list(event)
+    except TypeError:
+        return
+    if any(getattr(v, "name", None) not in names for v in vars_):
+        kernel.count("C19:ctf-form:invalid-input-skipped")
+        return
+    g = _names_rg(ref)
+    want = all(_is_ctf_form_ref(g, v) for v in vars_)
+    kernel.count("C19:ctf-form:checked")
+    if bool(res) != want:
+        kernel.violation("C19", "ctf-form", f"is_counterfactual_factor_form({sorted(map(str, vars_))}) = {res}, the documented "
+                         f"test (all parents subscripted, the variable itself not) gives {want}; graph {gd_of(ref)}",
+                         case={"graph": gd_of(ref), "variables": [cfvar_json(v) for v in vars_], "op": "is_ctf_form"})
+
+
+def _post_same_district(snap, res, event, graph):
+    ref = RG.from_nx(graph)
+    names = {v.name for v in ref.V}
+    vars_ = list(event)
+    if any(getattr(v, "name", None) not in names for v in vars_):
+        return
+    g = _names_rg(ref)
+    dist = {n: i for i, d in enumerate(g.districts()) for n in d}
+    want = len({dist[v.name] for v in vars_}) <= 1
+    kernel.count("C19:same-district:checked")
+    if bool(res) != want:
+        kernel.violation("C19", "same-district", f"same_district({sorted(map(str, vars_))}) = {res}, districts say {want}; graph "
+                         f"{gd_of(ref)}", case={"graph": gd_of(ref), "variables": [cfvar_json(v) for v in vars_],
+                                                "op": "same_district"})
+
+
+def _post_convert(snap, res, *, event, graph):
+    ref = RG.from_nx(graph)
+    names = {v.name for v in ref.V}
+    try:
+        pairs = list(event)
+    except TypeError:
+        return
+    if not ref.is_acyclic() or any(getattr(v, "name", None) not in names for v, _ in pairs):
+        kernel.count("C19:convert:invalid-input-skipped")
+        return
+    g = _names_rg(ref)
+    kernel.count("C19:convert:checked")
+    case = {"graph": gd_of(ref), "variables": [cfvar_json(v) for v, _ in pairs], "op": "convert_to_ctf_form"}
+    if len(res) != len(pairs):
+        kernel.violation("C19", "ctf-convert", f"convert_to_counterfactual_factor_form returned {len(res)} items for "
+                         f"{len(pairs)}", case=case)
+        return
+    for (v, val), (w, val2) in zip(pairs, res):
+        name, world = cfvar_json(v)
+        want = _ctf_form_ref(g, name, world)
+        got = _ctf_key(w, g, world)
+        if got != want or val2 != val:
+            kernel.violation("C19", "ctf-convert", f"convert_to_counterfactual_factor_form: {v} (value {val}) became {w} (value "
+                             f"{val2}); Definition 3.4 gives {want[0]} with subscripts {list(want[1])} and the same value; graph "
+                             f"{case['graph']}", case=case)
+            return
+
+
+def structure_of_factorization(expr, ref: RG, ev):
+    """Equations 11-15 as sets: (blocks, sum range) of the expected factorisation, and what the returned expression has.
+    Blocks are sets of (name, ((parent, mark-or-None)...)): the ancestors (Definition 2.1) in ctf-factor form, grouped by
+    the districts of G restricted to the ancestors' vertices.  -> (want_blocks, want_range, got_blocks, got_range) or None
+    when the expression is not a sum-product of plain probabilities."""
+    from y0.dsl import One, Probability, Product, Sum
+
+    g = _names_rg(ref)
+    anc = set()
+    for name, world, _ in ev:
+        anc |= ref_ancestors(g, name, tuple((i, bool(sg)) for i, sg in world))
+    bases = {a[0] for a in anc}
+    sub = g.subgraph(bases)
+    dist = {n: i for i, d in enumerate(sub.districts()) for n in d}
+    want: dict = {}
+    for name, world in anc:
+        want.setdefault(dist[name], set()).add(_ctf_form_ref(g, name, world) + (world,))
+    want_range = bases - {c[0] for c in ev}
+    body = expr
+    got_range = set()
+    if isinstance(body, Sum):
+        got_range = {r.name for r in body.ranges}
+        body = body.expression
+    factors = list(body.expressions) if isinstance(body, Product) else [body]
+    got = []
+    for f in factors:
+        if isinstance(f, One):
+            continue
+        if not isinstance(f, Probability) or f.parents:
+            return None
+        got.append(f.children)
+    return want, want_range, got, got_range
+
+
+def _check_structure(expr, ref: RG, ev, case, mech_fn):
+    st = structure_of_factorization(expr, ref, ev)
+    if st is None:
+        kernel.count("C19:factorization:structure-not-a-plain-sum-product")
+        return
+    want, want_range, got, got_range = st
+    g = _names_rg(ref)
+    kernel.count("C19:factorization:structure-compared")
+    # every expected variable must appear, in a block with exactly its district mates; worlds are matched through the
+    # subscripts the ancestor already had (an added parent's mark is free)
+    want_blocks = sorted((sorted(((n, subs) for n, subs, _w in b), key=repr) for b in want.values()), key=repr)
+    got_blocks = sorted((sorted((_ctf_key(v, g, None)[:1] + (tuple(sorted((i.name, None) for i in getattr(v, "interventions", ()) or ())),)
+                                 for v in b), key=repr) for b in got), key=repr)
+    blank = sorted((sorted(((n, tuple((p, None) for p, _ in subs)) for n, subs in b), key=repr) for b in want_blocks), key=repr)
+    problems = []
+    if blank != got_blocks:
+        problems.append(f"factors over {got_blocks} but Equations 11-15 give {blank} (names with their subscript names)")
+    else:
+        # marks of the subscripts an ancestor already carried must survive
+        for wb in want.values():
+            for n, subs, world in wb:
+                fixed = {p: m for p, m in subs if m is not None}
+                if not fixed:
+                    continue
+                ok = any(v.name == n and {i.name: bool(i.star) for i in getattr(v, "interventions", ()) or () if i.name in fixed} == fixed
+                         and {i.name for i in getattr(v, "interventions", ()) or ()} == {p for p, _ in subs}
+                         for b in got for v in b)
+                if not ok:
+                    problems.append(f"no factor variable for {n} with the subscript values {fixed}")
+    if got_range != want_range:
+        problems.append(f"the sum ranges over {sorted(got_range)} but the ancestors outside the query are {sorted(want_range)}")
+    if problems:
+        kernel.violation("C19", "factorization-structure", f"do_counterfactual_factor_factorization({gev.key(ev)}) = {expr}: " +
+                         "; ".join(problems[:3]) + f"; graph {case['graph']}", case=case, mech=mech_fn("structure"))
 
 
 def _post_factorization(snap, res, *, variables, graph):
@@ -477,6 +706,15 @@ def install_blocks():
     kernel.install_function(api, "simplify", label="simplify", post=_post_simplify, on_raise=_raise_simplify)
     kernel.install_function(api, "do_counterfactual_factor_factorization", label="do_counterfactual_factor_factorization",
                             post=_post_factorization, on_raise=_raise_factorization)
+    kernel.install_function(api, "get_counterfactual_factors", label="get_counterfactual_factors", post=_post_factors,
+                            on_raise=_raise_factors)
+    kernel.install_function(api, "get_counterfactual_factors_retaining_variable_values",
+                            label="get_counterfactual_factors_retaining_variable_values", post=_post_factors_values,
+                            on_raise=_raise_factors_values)
+    kernel.install_function(api, "is_counterfactual_factor_form", label="is_counterfactual_factor_form", post=_post_is_form)
+    kernel.install_function(api, "same_district", label="same_district", post=_post_same_district)
+    kernel.install_function(api, "convert_to_counterfactual_factor_form", label="convert_to_counterfactual_factor_form",
+                            post=_post_convert)
 
 
 # ---------------------------------------------------------------------------------------
